@@ -121,6 +121,8 @@ def capture(doc):
           cap["fcols"].append(sc["colId"])
     cap["cols"].sort()
     cap["kinds"] = [_kind(c[2]) for c in cap["cols"]]
+    cap["missing_targets"] = [c[1] for c in cap["cols"] if c[2] and c[2].split(":")[0] in ("Ref", "RefList")
+                              and c[2].split(":", 1)[1] not in eng.tables]
     st, tt = eng.tables.get(cap["sum"]), eng.tables.get(cap["src"])
     if st is None or tt is None:
       cap["problem"] = "summary table or its source table does not exist in the engine"
@@ -248,6 +250,8 @@ STALE_FORMULA_SIG = ("a group-by FORMULA column is recalculated in the same pass
                      "evaluated (the helper is pulled early by its #lookup##summary# index, before the lookup the formula "
                      "depends on delivers the change; a cell re-invalidated within one pass is skipped): the summary table "
                      "keeps the row under the stale key")
+MISSING_TARGET_SIG = ("summary table grouped by a Ref/RefList column whose TARGET TABLE does not exist (AddColumn accepts the type "
+                      "`RefList:NoSuchTable`): the helper formula raises for every source row, the summary table gets no rows")
 ERROR_CELL_SIG = ("a source row whose group-by cell holds an error (e.g. a group-by formula that now raises) is not "
                   "regrouped: it stays listed in the groups it belonged to before, and those summary rows survive")
 
@@ -303,6 +307,10 @@ def classify(cap, rec):
     return GROUPBY_GROUP_SIG
   if cap["problem"]:
     return None
+  if cap.get("missing_targets") and not cap["srows"]:
+    # recognised only in its exact recorded shape: a group-by reference column points at a table the document does
+    # not have, and the summary table is completely empty
+    return MISSING_TARGET_SIG
   lists, errs, negs = rows_with(cap, "x"), rows_with(cap, "e"), set(cap["negrefs"])
   # rows whose FORMULA group-by cell was recalculated by this very bundle
   recalced = set()
